@@ -445,6 +445,13 @@ def clone_value(eng, c, a, g): return eng.load(a[0]) if isinstance(a[0], Ptr) el
 def clone_from(eng, c, a, g):
     eng.store(a[0], eng.load(a[1]), g); return UNIT
 def opaque_default(eng, c, a, g): return Opaque('default ' + c[:40])
+def closure_call(eng, c, a, g):
+    args = a[1].f if isinstance(a[1], Agg) else [a[1]]
+    cv = a[0]
+    while isinstance(cv, Ptr): cv = eng.load(cv)
+    if cv is None:   # zero-sized closure: never materialised in MIR, identified by its type
+        cv = ClosureV(re.match(r'<\{closure@([^}]*)\}', c).group(1), Agg([]))
+    return eng.call_closure(cv, list(args), g)
 def box_new(eng, c, a, g): return BoxV(a[0])
 def drop_noop(eng, c, a, g): return UNIT
 def enum_eq(eng, c, a, g):
@@ -538,8 +545,8 @@ MODELS = [
     (R(r'<.* as Iterator>::chain::<.*'), iter_chain),
     (R(r'<.* as Iterator>::all::<.*'), iter_all),
     (R(r'<.* as Iterator>::flat_map::<.*'), iter_flat_map),
-    (R(r'IndexMap::<.*>::values'), slotmap_values),
-    (R(r'IndexMap::<.*>::iter'), slotmap_iter),
+    (R(r'IndexMap::<.*>::values(_mut)?'), slotmap_values),
+    (R(r'IndexMap::<.*>::iter(_mut)?'), slotmap_iter),
     (R(r'IndexMap::<.*>::len'), slotmap_len),
     (R(r'IndexMap::<.*>::is_empty'), slotmap_is_empty),
     (R(r'IndexMap::<.*>::get::<.*>'), slotmap_get),
@@ -577,6 +584,7 @@ MODELS = [
     (R(r'<.* as Clone>::clone_from'), clone_from),
     (R(r'<.* as Clone>::clone'), clone_value),
     (R(r'<.* as ToOwned>::to_owned'), clone_value),
+    (R(r'<\{closure@[^}]*\} as Fn(Mut|Once)?<.*>>::call(_mut|_once)?'), closure_call),
     (R(r'Box::<.*>::new'), box_new),
     (R(r'<.* as Drop>::drop'), drop_noop),
     (R(r'<GraphKind as PartialEq>::eq'), enum_eq),
